@@ -274,7 +274,7 @@ def snapshot_definition(node: SymbolNode | None, common: SymbolSnapshot) -> Symb
             setter_type,  # multi-part properties are stored as OverloadedFuncDef
         )
     elif isinstance(node, Var):
-        return ("Var", common, snapshot_optional_type(node.type), node.is_final)
+        return ("Var", common, snapshot_optional_type(node.type), node.is_final, node.is_property)
     elif isinstance(node, Decorator):
         # Note that decorated methods are represented by Decorator instances in
         # a symbol table since we need to preserve information about the
@@ -319,6 +319,14 @@ def snapshot_definition(node: SymbolNode | None, common: SymbolSnapshot) -> Symb
             [snapshot_type(p) for p in node._promote],
             dataclass_transform_spec.serialize() if dataclass_transform_spec is not None else None,
             node.deprecated,
+            # Flags of the dataclass plugin that change how other modules may use the class.
+            tuple(
+                sorted(
+                    (k, v)
+                    for k, v in node.metadata.get("dataclass", {}).items()
+                    if isinstance(v, bool)
+                )
+            ),
         )
         prefix = node.fullname
         symbol_table = snapshot_symbol_table(prefix, node.names)
